@@ -1,0 +1,38 @@
+//go:build verif
+
+// Contracts for package didjwk, checked by /verif/govc (comment-only; not part of any normal build).
+
+package didjwk
+
+//@ func (*base64.Encoding).DecodeString
+//@   trusted
+//@   benign
+//@ func jwk.ParseKey
+//@   trusted
+//@   benign
+//@ func jwk.PublicRawKeyOf
+//@   trusted
+//@   benign
+//@ func did.NewVerificationMethod
+//@   trusted
+//@   benign
+//@   ensures isNilIface(result.1) ==> result.0 != nil
+//@ func (*did.Document).AddAssertionMethod
+//@   trusted
+//@   modifies *doc
+//@   ensures same(doc.ID, old(doc.ID))
+//@ func rawPrivateKeyOf
+//@   prop C18 C03
+//@   assume-benign
+
+// ---- C18: the did:jwk document is computed from the identifier alone and carries that identifier; private keys are refused ----
+//@ func (Resolver).Resolve
+//@   prop C18 C19
+//@   safety
+//@   ensures [document-id-is-the-did] isNilIface(result.2) ==> result.0 != nil && same(result.0.ID, id) && id.Method == "jwk"
+//@   ensures [key-decoded-from-the-identifier] isNilIface(result.2) ==> isNilIface(ret(call (*base64.Encoding).DecodeString #1).1) && arg(call (*base64.Encoding).DecodeString #1, 1) == id.ID
+//@        && isNilIface(ret(call jwk.ParseKey #1).1) && arg(call jwk.ParseKey #1, 0) == ret(call (*base64.Encoding).DecodeString #1).0
+//@        && isNilIface(ret(call jwk.PublicRawKeyOf #1).1) && arg(call jwk.PublicRawKeyOf #1, 0) == any(ret(call jwk.ParseKey #1).0)
+//@        && arg(call did.NewVerificationMethod #1, 3) == ret(call jwk.PublicRawKeyOf #1).0 && same(arg(call did.NewVerificationMethod #1, 0).DID, id)
+//@   ensures [private-keys-refused] isNilIface(result.2) ==> isNilIface(ret(call rawPrivateKeyOf #1).1) && isNilIface(ret(call rawPrivateKeyOf #1).0)
+//@        && arg(call rawPrivateKeyOf #1, 0) == ret(call jwk.ParseKey #1).0
